@@ -886,6 +886,17 @@ PROPERTIES["C15"]["explanation"] += " (PRINTCAST) No function that builds the ec
 PROPERTIES["C09"]["rules"] += [("VIEWREAD", lambda ctx: rule_viewread(ctx.lib))]
 PROPERTIES["C09"]["explanation"] += " (VIEWREAD) Every element read of the shared deque in list.rs is offset by the view window, so head/tail/element access return the element the source denotes whether or not the storage is shared (seed C09-5: `head(tail([10, 20, 30]))` = 10)."
 
+from caseguard import rule_caseguard  # noqa: E402
+
+PROPERTIES["C10"]["rules"] += [("CASEGUARD", lambda ctx: rule_caseguard(ctx.lib))]
+PROPERTIES["C10"]["explanation"] += " (CASEGUARD) Within one condition of the tokenizer, the two case spellings of a letter (`e`/`E`) are consumed under the same `&&` look-ahead guard."
+
+from fulliter import rule_fulliter  # noqa: E402
+
+for _pid in ("C16", "C02"):
+    PROPERTIES[_pid]["rules"] += [("FULLITER", lambda ctx: rule_fulliter(ctx.lib))]
+    PROPERTIES[_pid]["explanation"] += " (FULLITER) A method of DType / Type / TypeScheme that returns a collection walks the fields of self without a truncating iterator adapter: generalisation and is_closed() see every type parameter, wherever the canonical order puts it."
+
 NOT_APPLICABLE = {
     "C03": "numerical agreement of conversion factors over 500 units is a statement about run-time values; no structural clause is a necessary condition that is not already covered under C04/C11/C12 (static analysis cannot bound the arithmetic)",
     "C14": "a statement about the decimal rendering of every f64 under every format setting; the code delegates to pretty_dtoa/num_format and no structural clause of Number::pretty_print_with_dtoa_config can be decided without evaluating it",
